@@ -639,6 +639,19 @@ func (f *Frame) calleeEnv(p callPlan, args []Val, st, old *State) *Env {
 	if p.recv && len(args) > 0 {
 		env.vars["self"] = args[0]
 	}
+	if p.cl != nil && p.fn != nil {
+		// the contract of a closure may name its captured variables
+		cl, fn := p.cl, p.fn
+		env.local = func(name string, s *State) (Val, bool) {
+			for i, fv := range fn.FreeVars {
+				if fv.Name() == name && i < len(cl.bindings) {
+					l := cl.frame.locOf(cl.bindings[i])
+					return Val{T: c.load(s, l), GT: l.typ}, true
+				}
+			}
+			return Val{}, false
+		}
+	}
 	return env
 }
 
